@@ -209,6 +209,8 @@ func (e *ExecutionEngine) Execute(ctx context.Context, operation *graphql.Reques
 		// Normalize the operation again, this time just extracting additional variables from arguments.
 		result, err := operation.Normalize(e.config.schema,
 			astnormalization.WithExtractVariables(),
+			// a variable that was only used inside an extracted literal is no longer used
+			astnormalization.WithRemoveUnusedVariables(),
 		)
 		if err != nil {
 			return err
